@@ -41,7 +41,7 @@ def decorator_order(ctx, rule, modules):
 
 # ---------------------------------------------------------------------------------------------------------------------
 BOUNDED_OK = {
-    'bumble.rfcomm.DLC.__init__': 'receive buffer used only while no consumer is attached (documented drop-oldest with a warning)',
+    'bumble.rfcomm.DLC.__init__': 'receive buffer used only while no consumer is attached; it cannot overflow because the frames in it keep their credits (decided by C20.queued-frames-hold-credits: window <= queue size, rx_credits_needed counts them)',
 }
 
 
